@@ -137,10 +137,17 @@ def run_corpus(chk, tier):
         if lines2:
             items2.append((binary, "\n".join(lines2) + "\n"))
             idx2.append((fn, text, lines2))
-    for (fn, text, lines2), res in zip(idx2, cppbuild.run_many(items2, workers=6)):
+    for (fn, text, lines2), res, (binary2, _) in zip(idx2, cppbuild.run_many(items2, workers=6), items2):
         if res.kind != "ok":
-            chk.violation("input", {"part": "TXT-testdata", "file": fn, "observed": "%s: %s" % (res.kind, res.err[-1500:]),
-                                    "expected": "no sanitizer report / failed CHECK"})
+            bad = None
+            for ln in lines2:
+                if cppbuild.run(binary2, ln + "\n").kind != "ok":
+                    bad = ln
+                    break
+            rec = {"part": "TXT", "origin": "testdata/" + fn, "emb": text,
+                   "observed": "%s: %s" % (res.kind, res.err[-1500:]), "expected": "no sanitizer report / failed CHECK"}
+            rec.update(T.line_fields(bad))
+            chk.violation("input", rec)
             continue
         reported = set()
         for ln, a in zip(lines2, res.out.split("\n")[:-1]):
